@@ -179,11 +179,11 @@ func run(c *hk.Ctx) {
 	}
 
 	// random run-time types
-	n := 144
+	n := 156
 	if c.Thorough() {
-		n = 1640
+		n = 1780
 	}
-	constructs := []string{"bytes", "time", "embedded", "embedded-ptr", "embedded-tagged", "string-option", "interface", "ref-escape", "dash-comma", "repeat", "repeat-deep", "js-tags"}
+	constructs := []string{"bytes", "time", "embedded", "embedded-ptr", "embedded-tagged", "string-option", "interface", "ref-escape", "dash-comma", "repeat", "repeat-deep", "js-tags", "same-name"}
 	safeNamed := []string{}
 	for _, cs := range cases {
 		if cs.construct == "" && cs.name != "Wide" {
@@ -355,16 +355,23 @@ func (r *runner) runCase(cs tcase, budgets []int) {
 				break
 			}
 		}
-		// ... and resolves to the schema of the type of the field that carries it
-		if !cs.noModel && (cs.construct == "" || cs.construct == "repeat" || cs.construct == "repeat-deep") && st != "inline" {
+		// ... and resolves to the schema of the type of the field that carries it; and at EVERY struct position below the
+		// root (behind a $ref or in place) the schema names exactly the JSON fields of the type at that position
+		plainTags := cs.construct == "" || cs.construct == "repeat" || cs.construct == "repeat-deep" || cs.construct == "same-name" || cs.construct == "js-tags"
+		if !cs.noModel && plainTags && (st != "inline" || !cyclic(cs.td)) {
 			var bad []refMismatch
 			r.refTargets(docs[st], cs.td, docs[st], "#", map[string]bool{}, &bad)
 			c.Count("reftarget|"+cs.name+"|"+st, nontrivial, nil, "oracle:ref-target")
-			if len(bad) > 0 {
+			if len(bad) > 0 && bad[0].Ref != "" {
 				c.Violate(hk.Violation{Fingerprint: "schema:" + st + ":" + r.constructOf(cs, false) + ":ref-wrong-target",
 					What:     "a $ref does not lead to the schema of the struct type of the field that carries it (at " + bad[0].At + ": " + bad[0].Ref + " for Go type " + bad[0].GoType + ")",
 					Input:    input(map[string]any{"style": st}),
 					Observed: map[string]any{"target_properties": bad[0].Got, "schema": trunc(b, 3000)}, Expected: map[string]any{"target_properties": bad[0].Want}})
+			} else if len(bad) > 0 {
+				c.Violate(hk.Violation{Fingerprint: "schema:" + st + ":" + r.constructOf(cs, false) + ":property-names-below-root",
+					What:     "below the root, the schema of a struct-typed position does not name exactly the JSON fields encoding/json uses for the type at that position (at " + bad[0].At + ", Go type " + bad[0].GoType + ")",
+					Input:    input(map[string]any{"style": st}),
+					Observed: map[string]any{"properties": bad[0].Got, "schema": trunc(b, 3000)}, Expected: map[string]any{"properties": bad[0].Want}})
 			}
 		}
 
